@@ -281,6 +281,23 @@ func floatParts(f float64) (int64, int64) {
 	return int64(frac * (1 << 53)), int64(e - 53)
 }
 
+// encFloat: an integer-valued float64, the MaxFloat64 sentinel, an infinity or NaN on the wire
+func encFloat(f float64) []int64 {
+	switch {
+	case math.IsNaN(f):
+		return []int64{4, 0}
+	case math.IsInf(f, 1):
+		return []int64{2, 0}
+	case math.IsInf(f, -1):
+		return []int64{3, 0}
+	case f == math.MaxFloat64:
+		return []int64{1, 0}
+	case f != math.Trunc(f) || f >= 1<<63 || f < -(1<<63):
+		panic(fmt.Sprintf("float %v is not an int64-sized integer", f))
+	}
+	return []int64{0, int64(f)}
+}
+
 func run(sel int, in []int64) []int64 {
 	grid = 16.0
 	if sel == 11 || sel == 12 {
@@ -304,15 +321,30 @@ func run(sel int, in []int64) []int64 {
 		g := float64(in[0])
 		q := api.ResFloat642Quantity(n, float64(in[1])/g)
 		back := api.ResQuantity2Float64(n, q) * g
-		if back != math.Trunc(back) || math.Abs(back) > 1<<62 {
+		if back != math.Trunc(back) || back >= 1<<63 || back < -(1<<63) {
 			return []int64{milliOf(q), 0, 0}
 		}
 		return []int64{milliOf(q), 1, int64(back)}
+	case 14:
+		// float64 arithmetic of the real Resource fields on integer-valued operands (x, y):
+		// s = x + y through Add, s - y through SubWithoutAssert, s.LessEqual(s, Zero)
+		grid = 1.0
+		x, y := tokVal(in[0]), tokVal(in[1])
+		s := (&api.Resource{MilliCPU: x, Memory: x}).Add(&api.Resource{MilliCPU: y, Memory: y})
+		d := s.Clone().SubWithoutAssert(&api.Resource{MilliCPU: y, Memory: y})
+		if s.MilliCPU != s.Memory && !(math.IsNaN(s.MilliCPU) && math.IsNaN(s.Memory)) {
+			panic("cpu and memory arithmetic differ")
+		}
+		out := append(tag(1), encFloat(s.MilliCPU)...)
+		out = append(out, tag(2)...)
+		out = append(out, encFloat(d.MilliCPU)...)
+		out = append(out, tag(3)...)
+		return append(out, vh.B(s.LessEqual(s, api.Zero)))
 	case 13:
 		// in = quantity in milli-units, which resource
 		n := convNames[int(in[1])%len(convNames)]
 		f, back := q2f2q(n, in[0])
-		if f != math.Trunc(f) || math.Abs(f) > 1<<62 {
+		if f != math.Trunc(f) || f >= 1<<63 || f < -(1<<63) {
 			return []int64{0, 0, back}
 		}
 		return []int64{1, int64(f), back}
@@ -464,13 +496,11 @@ func laws(sel int, in, got []int64, law func(lsel int, lin []int64, sig string))
 	case 5:
 		lawsMinDRA(in, got, law)
 	case 6:
-		// got = tag, Add result, tag, Sub result
-		g := []int64{}
-		for _, v := range got {
-			if v != -101 && v != -102 {
-				g = append(g, v)
-			}
-		}
+		// got = tag, Add result (count, n, n pairs), tag, Sub result: drop the two tags by position (a count
+		// may itself equal a tag value)
+		l1 := 2 + 2*int(got[2])
+		g := append([]int64{}, got[1:1+l1]...)
+		g = append(g, got[2+l1:]...)
 		law(107, append(append([]int64{}, in...), g...), "")
 	case 7:
 		lawsNewResource(in, law)
@@ -606,7 +636,39 @@ func gen(rng *vh.Rng, n int, emit func(id string, sel int, in []int64, kind stri
 		if rng.Chance(1, 8) {
 			x = -x
 		}
-		emit(fmt.Sprintf("quantity-%d", i), 4, []int64{g, x, int64(rng.Intn(4))}, "float_quantity_float", x != 0, nil)
+		idx := int64(rng.Intn(4))
+		if rng.Chance(1, 5) {
+			// float64-exact amounts above 2^53 (cpu only: whole-unit quantities times 1000 leave the int64 tokens)
+			g, x, idx = 1, genLarge(rng, true), 0
+		}
+		emit(fmt.Sprintf("quantity-%d", i), 4, []int64{g, x, idx}, "float_quantity_float", x != 0, nil)
+	}
+	// float64 effects on the real fields vs the float mini-model: the three refutation witnesses, then pairs of
+	// float64-exact integers up to 2^61 and the sentinel
+	for i, p := range [][2]int64{{1, 1 << 53}, {5, sentinelTok}, {sentinelTok, sentinelTok}, {1 << 53, 1}, {(1 << 53) - 1, 1}, {-1, 1 << 53}, {3, 1 << 54}, {sentinelTok, 5}} {
+		emit(fmt.Sprintf("float-witness-%d", i), 14, []int64{p[0], p[1]}, "float_add_sub/directed", true, nil)
+	}
+	for i := 0; i < n/4+1; i++ {
+		pick := func() int64 {
+			switch rng.Intn(6) {
+			case 0:
+				return sentinelTok
+			case 1:
+				return int64(rng.Range(-9, 9))
+			case 2:
+				return (int64(1) << 53) + 2*int64(rng.Range(-4, 4))
+			default:
+				v := genLarge(rng, true) >> 2
+				if float64(v) >= 1<<63 || int64(float64(v)) != v {
+					v = 1 << 60
+				}
+				if rng.Chance(1, 4) {
+					v = -v
+				}
+				return v
+			}
+		}
+		emit(fmt.Sprintf("float-%d", i), 14, []int64{pick(), pick()}, "float_add_sub", true, nil)
 	}
 	// Quantity -> float -> Quantity: EVERY cpu milli value 0..10000, then boundary families for all names
 	for m := int64(0); m <= 10000; m++ {
@@ -630,7 +692,16 @@ func gen(rng *vh.Rng, n int, emit func(id string, sel int, in []int64, kind stri
 		default:
 			m = int64(rng.Range(0, 64)) * 1000
 		}
-		emit(fmt.Sprintf("q2f-%d", i), 13, []int64{m, int64(rng.Intn(4))}, "quantity_float_quantity", m != 0, nil)
+		if rng.Chance(1, 4) {
+			// above 2^53: float64-exact and non-representable milli values up to 2^63 (law 115 asks the exact
+			// round trip only for the former, the float64 rounding for the latter)
+			m = genLarge(rng, rng.Chance(1, 2))
+		}
+		idx := int64(rng.Intn(4))
+		if idx != 0 && m > 1<<62 {
+			m >>= 2 // Value() rounds up to whole units: keep 1000 * units inside the int64 tokens
+		}
+		emit(fmt.Sprintf("q2f-%d", i), 13, []int64{m, idx}, "quantity_float_quantity", m != 0, nil)
 	}
 	// large magnitudes on the unit grid: multiples of 2^12 up to 2^60 (all of res_all stays exact)
 	bigAmt := func() int64 {
